@@ -289,6 +289,14 @@ type BatchOutcome struct {
 	Victim      *diskVictim // line whose result streams met injected write errors (excluded from summary and solo oracles)
 	Excused     map[int]string // position in the batch -> why the line is exempt from the summary and solo oracles (judged by the fault's own oracle)
 	AtDecision  func(n int)    // fault hook: called by the scheduler before decision n is taken
+	Released    []releasedAt   // per serial decision: which run was released from which yield point
+	StartDec    map[string]int // run id -> decision at which the run left its first yield point (run.start), i.e. began to execute
+}
+
+// releasedAt: decision n released run Task, which was parked at Point (Detail: the path for pool.get / disk operations).
+type releasedAt struct {
+	Dec                 int
+	Task, Point, Detail string
 }
 
 // RunBatch executes lines through the real dispatcher under the seeded scheduler.
@@ -388,6 +396,13 @@ func (e *Env) RunBatch(root string, lines []string, spec *SchedSpec, disk *SimDi
 					schedProgress.Add(1)
 					i := s.choose(parked)
 					s.mu.Lock()
+					out.Released = append(out.Released, releasedAt{len(s.decisions), parked[i].id, parked[i].point, parked[i].detail})
+					if parked[i].point == "run.start" {
+						if out.StartDec == nil {
+							out.StartDec = map[string]int{}
+						}
+						out.StartDec[parked[i].id] = len(s.decisions)
+					}
 					s.decisions = append(s.decisions, i)
 					s.current = parked[i].id
 					s.mu.Unlock()
